@@ -17,8 +17,8 @@ def base(idle, dwa, wakeup):
 
 def models(tier):
     out = []
-    alpha = [("tick", 1), ("m", 0, "req"), ("m", 0, "dwr"), ("m", 0, "dwa"), ("mfrag", 0, "req")]
-    dev = {("tick", 1): 0, ("m", 0, "req"): 1, ("m", 0, "dwr"): 1, ("m", 0, "dwa"): 1, ("mfrag", 0, "req"): 1}
+    alpha = [("tick", 1), ("m", 0, "req"), ("m", 0, "dwr"), ("m", 0, "dwa"), ("mfrag", 0, "req"), ("mtiny", 0, "dwr")]
+    dev = {("tick", 1): 0, ("m", 0, "req"): 1, ("m", 0, "dwr"): 1, ("m", 0, "dwa"): 1, ("mfrag", 0, "req"): 1, ("mtiny", 0, "dwr"): 1}
     triples = [(3, 2, 1), (2, 2, 2), (5, 1, 3)]
     overrides = [("none", {}), ("idle", {"idle_timeout": 2}), ("dwa", {"dwa_timeout": 1}), ("both", {"idle_timeout": 4, "dwa_timeout": 3})]
     for idle, dwa, wake in triples:
@@ -36,6 +36,21 @@ def models(tier):
             cfg["peers"][0].update(ov)
             out.append(monitors.ScenarioModel(f"outbound-idle{idle}-dwa{dwa}-wake{wake}-peer:{oname}", cfg, alpha, MONS, max_socks=1,
                                               prelude=[("m", 0, "cea_ok")], deviations=dev, start_plan=["ok"]))
+    # second lifetimes: (a) the same inbound peer again after its first connection was lost for another reason; (b) another peer with
+    # other timer settings on the next connection, which gets the descriptor the first one had (the OS hands out the lowest free one)
+    alpha1 = [(e[0], 1) + tuple(e[2:]) if e[0] != "tick" else e for e in alpha]
+    dev1 = {((k[0], 1) + tuple(k[2:]) if k[0] != "tick" else k): v for k, v in dev.items()}
+    for first_end in ("eof", "dpr"):
+        cfg = base(3, 2, 1)
+        cfg["peers"][0].update({"idle_timeout": 2})
+        pre = [("accept",), ("m", 0, "cer_p0")] + ([("m", 0, "dpr")] if first_end == "dpr" else []) + [("eof", 0), ("accept",), ("m", 1, "cer_p0")]
+        out.append(monitors.ScenarioModel(f"inbound-second-lifetime-after-{first_end}", cfg, alpha1, MONS, max_socks=2, prelude=pre, deviations=dev1))
+    cfg = base(4, 2, 1)
+    cfg["peers"][0].update({"idle_timeout": 2, "dwa_timeout": 1})
+    cfg["peers"].append({"name": "peer2.example.org"})
+    cfg["apps"][0]["peers"] = [0, 1]
+    out.append(monitors.ScenarioModel("other-peer-on-a-reused-descriptor", cfg, alpha1, MONS, max_socks=2,
+                                      prelude=[("accept",), ("m", 0, "cer_p0"), ("tick", 1), ("eof", 0), ("accept",), ("m", 1, "cer_p1")], deviations=dev1))
     # a second deterministic scheduling policy (the I/O thread runs only when nothing else can): thorough tier
     if tier == "thorough":
         out = monitors.with_io_last(out)
